@@ -238,6 +238,26 @@ VerdictsFor(L, h, T, Res, q) ==
           rd \in RedirectAllowed(L, live, Res),
           rw \in (IF imp THEN {""} ELSE RewriteAllowed(q.url, rp))}
 
+\* Engine::check_network_request_subset(request, previously_matched_rule, force_check_exceptions):
+\* the variant used when several engines are consulted in turn (beyond the listed properties; the
+\* specification of src/blocker.rs:147-271 with both flags).  prev = an earlier engine already matched
+\* (then only $important rules of this engine are looked at); force = look for exceptions even if
+\* nothing matched here.  With both flags FALSE this is VerdictsFor.
+VerdictsSubset(L, h, T, Res, q, prev, force) ==
+  IF ~Supported(q) THEN {NoVerdict}
+  ELSE LET live == Live(L, h, T)
+           imp == \E i \in live : Kind(L[i]) = "imp"
+           blk == \E i \in live : Kind(L[i]) = "block"
+           exc == \E i \in live : Kind(L[i]) = "exc"
+           found == imp \/ (~prev /\ blk)
+           excChecked == IF imp THEN FALSE ELSE IF found THEN TRUE ELSE (prev \/ force)
+           exception == excChecked /\ exc
+           rp == {L[i].mval : i \in {k \in live : Kind(L[k]) = "rp" /\ L[k].tag = ""}} IN
+       {[matched |-> ~exception /\ (found \/ prev), important |-> imp,
+         exception |-> exception, redirect |-> rd, rewritten |-> rw] :
+          rd \in RedirectAllowed(L, live, Res),
+          rw \in (IF imp THEN {""} ELSE RewriteAllowed(q.url, rp))}
+
 \* C15: the CSP query; result is a set of directives, {} = no policy
 CspFor(L, h, T, q) ==
   IF ~Supported(q) \/ RType(q) \notin {"document", "subdocument"} THEN {}
